@@ -215,14 +215,48 @@ def acceptance(prog, ctx):
             ctx.undecided(R, name + ':acceptance', fn, 'acceptance step `uniform(0,1) < p -> x = candidate` not found')
             continue
         X, C, V = roles['x'], roles['cand'], roles['acc']
-        forms = [show(r).replace(' ', '') for r in assignments_to(fn, V) if strip_casts(r).get('val') not in ('0.0', '0')]
-        if axes == 1:
-            want = 'min(1.0,%s(%s)/%s(%s))' % (pdf, C, pdf, X)
-        else:
-            want = 'min(1.0,%s(%s.first,%s.second)/%s(%s.first,%s.second))' % (pdf, C, C, pdf, X, X)
-        ok = forms == [want] or forms == [want.replace('1.0', '1.')]
-        ctx.decide(R, name + ':acceptance', fn, ok, 'accept with probability min(1, PDF(candidate)/PDF(current)) using a fresh uniform(0,1) draw',
-                   'acceptance probability is %s, expected %s' % (forms, want))
+        # the value of the acceptance variable after one iteration of the chain loop, on the paths that did not leave the domain
+        ids = {}
+        for n_ in all_exprs(fn, into_lambdas=False):
+            if n_.get('k') == 'Ref' and n_.get('rk') == 'local' and n_.get('name') in (X, C, V):
+                ids[n_['name']] = n_['id']
+        for d_ in local_decls(fn):
+            if d_['name'] in (X, C, V):
+                ids[d_['name']] = d_['id']
+        loops = [s_ for s_ in walk_stmts(fn.body) if s_['k'] in ('For', 'While') and
+                 any(x_.get('k') == 'Ref' and x_.get('name') == V for y_ in walk_stmts(s_['body']) for e_ in stmt_exprs(y_) for x_ in walk_expr(e_))]
+        try:
+            if len(loops) != 1 or len(ids) != 3:
+                raise Undecided('chain loop / role variables not identified')
+            sx = Symx(prog, fn)
+            sts = sx.states_at(fn, loops[0])
+            if not sts:
+                raise Undecided('no path reaches the chain loop')
+            entry, cond, live, done, n0 = sx.loop_step(loops[0], sts[0])
+            vals = set()
+            for p_ in live:
+                v_ = p_.env.get(ids[V])
+                if isinstance(v_, sp.Basic) and v_ != 0:
+                    vals.add(v_)
+            F = Function('F:' + pdf, real=True)
+            x_in = entry.get(ids[X])
+            if axes == 1:
+                if not isinstance(x_in, Symbol):
+                    raise Undecided('chain variable is not a scalar carried by the loop')
+                cands = set(a_.args[0] for v_ in vals for a_ in v_.atoms(sp.core.function.AppliedUndef) if a_.func == F and a_.args[0] != x_in)
+                wants = [sp.Min(1, F(c_) / F(x_in)) for c_ in cands]
+            else:
+                wants = [sp.Min(1, F(Symbol(C + '.first', real=True), Symbol(C + '.second', real=True)) / F(Symbol(X + '.first', real=True), Symbol(X + '.second', real=True)))]
+                wants += [sp.Min(1, F(Symbol(C + '.first'), Symbol(C + '.second')) / F(Symbol(X + '.first'), Symbol(X + '.second')))]
+            ok = len(vals) == 1 and any(str(list(vals)[0]) == str(w_) or is_zero(list(vals)[0] - w_) for w_ in wants)
+            # the candidate of the ratio must be the value that is assigned to the chain variable on acceptance
+            if ok and axes == 1:
+                acc_x = set(p_.env.get(ids[X]) for p_ in live) - {x_in}
+                ok = acc_x == cands
+            ctx.decide(R, name + ':acceptance', fn, ok, 'accept with probability min(1, PDF(candidate)/PDF(current)) using a fresh uniform(0,1) draw',
+                       'acceptance probability is %s, expected min(1, PDF(candidate)/PDF(current))' % sorted(str(v_)[:200] for v_ in vals))
+        except Undecided as ex_:
+            ctx.undecided(R, name + ':acceptance', fn, 'acceptance step outside the understood fragment: %s' % ex_)
     sg = prog.fn(L + 'Sample_Gauss')
     sx = Symx(prog, sg)
     outs = [o for o in sx.run() if o.kind == 'return']
